@@ -62,7 +62,9 @@ Definition read_value (buf : bytes) (offset size : N) (bigendian : bool) : outco
 
 (* [file] is the whole file image.  ReadAt fills a 128-byte pooled buffer; the part beyond the end of a
    short file keeps whatever the pool buffer held before (utils.GetBuffer does not clear it); the model
-   takes zeros there, which is what a fresh buffer contains. *)
+   takes zeros there.  No decoded field lies beyond the bytes read: version 0 needs n >= 96 (checked since
+   /repo 07228cc; before it a 48..95-byte image took its root addresses from the stale buffer), versions 2/3
+   need 12 + 4*8 = 44 <= 48 <= n. *)
 Definition dec_superblock (file : bytes) : outcome superblock' :=
   let n := N.min (blen file) 128 in
   if n <? 48 then Err else
@@ -71,6 +73,7 @@ Definition dec_superblock (file : bytes) : outcome superblock' :=
   if negb (bytes_eqb sig signature) then Err else
   version <- index buf 8;;
   if negb ((version =? 0) || (version =? 2) || (version =? 3)) then Err else
+  if (version =? 0) && (n <? 96) then Err else          (* since /repo 07228cc *)
   '(bigendian, offsetSize, lengthSize) <-
     (if version =? 0 then
        o <- index buf 13;; l <- index buf 14;; Ok (false, o, l)
